@@ -37,7 +37,7 @@ def budget(tier):
 # ---------------------------------------------------------------------- programs
 
 BOUNDS = {}   # argument name -> exclusive upper bound for integer arguments that index or count
-QFAMS = ['Q1', 'Q2', 'Q3', 'Q4', 'Q5', 'Q6', 'Q7', 'Q8', 'Q8', 'Q9', 'Q10']
+QFAMS = ['Q1', 'Q2', 'Q3', 'Q4', 'Q5', 'Q6', 'Q7', 'Q8', 'Q8', 'Q9', 'Q10', 'Q11']
 
 
 def build_q(prog):
@@ -106,6 +106,17 @@ def build_q(prog):
         AA = ev.Sin(A) * A      # computed, argument free, not folded by the simplifier
         vv = ev.Cos(v) + v
         return (ev.InsertAxis(vv, cnt), ev.get(AA, 0, idx), ev.InsertAxis(ev.Sum(vv), cnt), ev.Sum(AA) + ev.astype(cnt, float), AA), args
+    if fam == 'Q11':  # an update map u -> F(u) whose result has the shape of its argument and is a VIEW OF A VIEW of an internal accumulator (fixed-point iteration feeds it back)
+        k = 2
+        U = arg('u', (k * k, m))
+        A = const((n, m, k, k))
+        B = const((m, k, k))
+        i = ev.loop_index('i', n)
+        uu = ev.Transpose(ev.unravel(U, 0, (c(k), c(k))), (2, 0, 1))          # (m, k, k)
+        acc = ev.loop_sum(ev.get(A, 0, i) * uu, i) + B                           # (m, k, k)
+        out = ev.Transpose(ev.Ravel(acc), (1, 0))                                # (k*k, m): the shape of u
+        acc2 = ev.loop_sum(ev.get(A, 0, i) * ev.get(A, 0, i), i) * uu + uu
+        return (out, ev.Transpose(ev.Ravel(acc2), (1, 0)), ev.Sum(ev.Ravel(acc))), args
     if fam == 'Q10':  # terms that are VIEWS of an argument (real / imaginary part, transpose, ravel) next to terms that are accumulated in place
         L = n + 2
         Z = arg('z', (L,), 'complex')
@@ -200,7 +211,9 @@ def gen_case(rng, index, tier):
     nops = rng.choice([2, 3, 4, 6, 8, 12] + ([20, 30] if tier == 'thorough' else []))
     for _ in range(nops):
         r = rng.random()
-        if r < 0.5:
+        if r < 0.5 and prog['family'] == 'Q11' and rng.random() < 0.6:
+            ops.append(dict(op='call', k=rng.randrange(nsets), how='feedback'))
+        elif r < 0.5:
             ops.append(dict(op='call', k=rng.randrange(nsets), how=rng.choice(['same', 'same', 'same', 'fresh', 'readonly', 'noncontig', 'extra', 'asint', 'onearray', 'roview', 'roview_int', 'roview_int', 'feedback', 'feedback'])))
         elif r < 0.7:
             ops.append(dict(op='scribble', j=rng.randrange(6)))
